@@ -163,6 +163,10 @@ def random_step(R: Draw, g: DocGen, doc: dict, n: int) -> dict:
         b = pos() if wild else R.int(a, min(n, a + R.int(0, 8)))
         sl = rand_slice(R, g) if R.bool(0.7) else closed_slice(R, g)
         return {"k": k, "from": a, "to": b, "slice": sl, "structure": R.bool(0.2)}
+    if k == "around" and R.bool(0.2):
+        sg = sibling_gap_step(R, g, doc)
+        if sg is not None:
+            return sg
     if k == "around":
         a = pos()
         b = R.int(a, min(n, a + R.int(0, 10)))
@@ -245,3 +249,78 @@ def clip_step(d: dict, n: int) -> dict:
         if f in d:
             d[f] = max(0, min(n, d[f]))
     return d
+
+
+# ------------------------------------------------------------------ hand-made ReplaceAround shapes a peer could send
+
+
+def sibling_gap_step(R: Draw, g: DocGen, doc: dict) -> dict | None:
+    """An around-step whose gap starts inside one node and ends inside a later sibling at the same depth
+    (not a flat range), with from/to at the level of their common parent and an empty or one-wrapper slice."""
+    from ..ref import resolve as RR
+
+    rs = g.rs
+    rdoc = RR.N(doc, rs)
+    by_parent: dict[int, list] = {}
+    for k, s_, par, i, d in RR.all_nodes(rdoc):
+        if not k.is_leaf and not k.is_text:
+            by_parent.setdefault(id(par), []).append((k, s_, i))
+    groups = [v for v in by_parent.values() if len(v) >= 2]
+    if not groups:
+        return None
+    sibs = R.choice(groups)
+    i = R.int(0, len(sibs) - 2)
+    j = R.int(i + 1, len(sibs) - 1)
+    (n1, s1, _), (n2, s2, _) = sibs[i], sibs[j]
+    gap_from = R.int(s1 + 1, s1 + 1 + n1.content_size)
+    gap_to = R.int(s2 + 1, s2 + 1 + n2.content_size)
+    frm = s1 if R.bool(0.7) else gap_from
+    to = s2 + n2.size if R.bool(0.7) else gap_to
+    if R.bool(0.5):
+        sl = dict(EMPTY_SLICE)
+        ins = 0
+    else:
+        t = R.choice([n1.t, n2.t])
+        sl = {"c": [P.mk(t, g.attrs(R, "node", t))], "os": 0, "oe": 0}
+        ins = 1
+    return {"k": "around", "from": frm, "to": to, "gapFrom": gap_from, "gapTo": gap_to, "slice": sl, "insert": ins, "structure": R.bool(0.3)}
+
+
+def reopen_wrap_step(R: Draw, g: DocGen, doc: dict, d: dict) -> dict | None:
+    """Equivalent re-spelling of a closed wrap step (slice <W(..)>(0,0) around a range of blocks) whose range touches
+    the start or the end of its parent P: the slice additionally carries a copy of P, open on that side, and the
+    replaced range is extended over P's boundary token. The wrappers now sit BELOW the slice's open depth."""
+    from ..ref import resolve as RR
+
+    if d["k"] != "around" or d["slice"]["os"] or d["slice"]["oe"] or d["from"] != d["gapFrom"] or d["to"] != d["gapTo"]:
+        return None
+    rs = g.rs
+    rdoc = RR.N(doc, rs)
+    try:
+        rp_from = RR.RefPos(rs, rdoc, d["from"])
+        rp_to = RR.RefPos(rs, rdoc, d["to"])
+    except ValueError:
+        return None
+    if rp_from.depth < 1 or rp_from.depth != rp_to.depth or rp_from.start(rp_from.depth) != rp_to.start(rp_to.depth):
+        return None
+    par = rp_from.parent.p
+    depth = rp_from.depth
+    shell = P.mk(par["t"], copy.deepcopy(par["a"]), copy.deepcopy(d["slice"]["c"]), copy.deepcopy(par["m"]))
+    n_wrap = d["insert"]
+    at_end = d["to"] == rp_to.end(depth)
+    at_start = d["from"] == rp_from.start(depth)
+    opts = [x for x, ok in (("start", at_end), ("end", at_start)) if ok]
+    if not opts:
+        return None
+    how = R.choice(opts)
+    out = copy.deepcopy(d)
+    if how == "start":
+        # open on the start side: from stays inside P, `to` moves past P's closing token
+        out["to"] = d["to"] + 1
+        out["slice"] = {"c": [shell], "os": 1, "oe": 0}
+        out["insert"] = n_wrap
+    else:
+        out["from"] = d["from"] - 1
+        out["slice"] = {"c": [shell], "os": 0, "oe": 1}
+        out["insert"] = n_wrap + 1
+    return out
